@@ -22,7 +22,9 @@ type CASpec struct {
 	OID     string // chipsim.OIDCaEcdh*; "" = key without ChipAuthenticationInfo (suite inferred by the reader)
 	ParamID int    // curve, standardized domain parameter id 8..18
 	KeyID   *int
-	Params  string // "explicit" (default) | "named"
+	// InfoNoKeyID: the keyId is carried by the ChipAuthenticationPublicKeyInfo only (a single key: the info needs none)
+	InfoNoKeyID bool
+	Params      string // "explicit" (default) | "named"
 	// ForeignDG14: DG14 publishes ANOTHER public key than the one the chip holds (a clone that
 	// kept the genuine DG14 but has its own key pair, seen from the chip: "substituted keys")
 	ForeignDG14 bool
@@ -233,7 +235,7 @@ func New(o Options) (*Passport, error) {
 		if c.ForeignDG14 {
 			pubPriv = randScalar(curve, rnd)
 		}
-		caSpecs = append(caSpecs, chipsim.CAKeySpec{OID: c.OID, KeyID: c.KeyID, ParamID: c.ParamID, Priv: pubPriv, Params: params, Cofactor: true})
+		caSpecs = append(caSpecs, chipsim.CAKeySpec{OID: c.OID, KeyID: c.KeyID, InfoNoKeyID: c.InfoNoKeyID, ParamID: c.ParamID, Priv: pubPriv, Params: params, Cofactor: true})
 	}
 	// CA key OID "" : the chip still needs a protocol to run; it answers MSE:Set KAT / 3DES
 	chipCAKeys := append([]chipsim.CAKey{}, p.CAKeys...)
